@@ -33,6 +33,9 @@ package profile
 //@   ensures providerName != "" ==> res != ""
 //@   ensures res == normProv(providerName)
 //@ interface ProfileFactory.GetAvailableProfiles
+// (a lookup: changes nothing; assumed of the configuration: the empty string is not a profile type)
+//@ interface ProfileFactory.ValidateProfileType(platformType)
+//@   ensures res ==> platformType != ""
 //@ interface ProfileFactory.GetProfile(profileType)
 //@   modifies ghost forName
 //@   ensures res1 == nil ==> res0 != nil && ghost(res0).forName == profileType
